@@ -27,6 +27,27 @@ fn main() {
         let ok = probe::run();
         std::process::exit(if ok { 0 } else { 1 });
     }
+    if args[1] == "tree" {
+        // debugging aid: the tree-sitter tree of a python source file
+        let src = std::fs::read_to_string(&args[2]).expect("read");
+        let tree = tree::parse_python(&src);
+        println!("has_error={}\n{}", tree.root_node().has_error(), tree.root_node().to_sexp());
+        let all = tree_sitter_graph::parse_error::ParseError::all(&tree);
+        println!("ParseError::all -> {} errors", all.len());
+        fn walk(n: tree_sitter::Node, depth: usize, out: &mut Vec<String>) {
+            if n.is_missing() || n.is_error() {
+                out.push(format!("{} missing={} error={} named={} extra={} range={:?} has_error={}", n.kind(), n.is_missing(), n.is_error(), n.is_named(), n.is_extra(), n.byte_range(), n.has_error()));
+            }
+            let mut c = n.walk();
+            for ch in n.children(&mut c) {
+                walk(ch, depth + 1, out);
+            }
+        }
+        let mut out = Vec::new();
+        walk(tree.root_node(), 0, &mut out);
+        println!("recursive walk over children(): {:?}", out);
+        return;
+    }
     if args[1] == "replay" {
         std::panic::set_hook(Box::new(|_| {}));
         std::process::exit(replay::run(&args[2]));
@@ -63,8 +84,10 @@ fn main() {
             _ => i += 1,
         }
     }
-    // panics of the implementation are caught per case; keep the default hook quiet
-    std::panic::set_hook(Box::new(|_| {}));
+    // panics of the implementation are caught per case; keep the default hook quiet (TSG_VERBOSE_PANIC=1 shows them)
+    if std::env::var("TSG_VERBOSE_PANIC").is_err() {
+        std::panic::set_hook(Box::new(|_| {}));
+    }
     let mut rep = report::Report::new(&prop, &tier, seed);
     match prop.as_str() {
         "C01" => props::c01::run(&mut rep, &tier, seed),
